@@ -715,7 +715,7 @@ func (g *Gen) GenScript(t *rapid.T) []QStep {
 	out := []QStep{}
 	kinds := []string{"next", "next", "step", "step", "count", "at", "atall", "all", "close"}
 	if g.IllegalQuerySteps {
-		kinds = append(kinds, "at!neg", "at!count", "step!0", "step!neg")
+		kinds = append(kinds, "at!neg", "at!count", "step!0", "step!neg", "rel!bad", "rel!bad")
 	}
 	for i := 0; i < n; i++ {
 		k := rapid.SampledFrom(kinds).Draw(t, "qk")
@@ -727,6 +727,8 @@ func (g *Gen) GenScript(t *rapid.T) []QStep {
 			st.N = rapid.IntRange(0, 60).Draw(t, "atn")
 		case "at!neg", "at!count", "step!neg":
 			st.N = rapid.IntRange(0, 2).Draw(t, "illn")
+		case "rel!bad":
+			st.N = rapid.IntRange(0, 12).Draw(t, "relc")
 		}
 		out = append(out, st)
 	}
